@@ -301,3 +301,28 @@ func (s *Sym) mentions2(name string) bool {
 	})
 	return found
 }
+
+// condFact: the truth value the branch facts give to a condition (a comparison the path branched on, or a
+// boolean value it tested).
+func condFact(facts []Fact, s *Sym) (val, known bool) {
+	neg := false
+	for s.Kind == KUn && s.Op == token.NOT {
+		s, neg = s.Args[0], !neg
+	}
+	if v, ok := boolFact(facts, s); ok {
+		return v != neg, true
+	}
+	if s.Kind == KBin {
+		switch s.Op {
+		case token.EQL, token.NEQ, token.LSS, token.LEQ, token.GTR, token.GEQ:
+			x, y := s.Args[0].Key(), s.Args[1].Key()
+			if hasFact(facts, func(f Fact) bool { return f.X.Key() == x && f.Y.Key() == y && f.Op == s.Op }) {
+				return !neg, true
+			}
+			if hasFact(facts, func(f Fact) bool { return f.X.Key() == x && f.Y.Key() == y && f.Op == negOp(s.Op) }) {
+				return neg, true
+			}
+		}
+	}
+	return false, false
+}
